@@ -32,6 +32,10 @@ def check(repo, col, tier):
     col.rule("R-C15-assembly", "implicit matrices of both back ends are the discretised cable operator", 10)
     c01_solver._assembly_jaxley(repo, col, "R-C15-assembly")
     c01_solver._assembly_sparse(repo, col, "R-C15-assembly")
+    # ... and the graph it is assembled on: a branch point couples the LAST compartment of the parent with the FIRST of each
+    # child, for any per-branch compartment counts (a refinement ladder that refines branches unequally depends on it)
+    col.rule("R-C15-ends", "branch-point edges attach at each branch's own first / last compartment", 4)
+    c01_solver._ends(repo, col, "R-C15-ends")
 
 
 def _channel_factor(repo, col):
